@@ -68,24 +68,58 @@ template<class Sk> static void eps_report(const char* fam, const char* group, in
   Ev("Trial").str("fam", fam).str("kind", "eps").str("group", group).i("k", k).i("n", n).i("sn", (long long)s.get_n())
     .i("eps", ppm(s.get_normalized_rank_error(false))).i("epspmf", ppm(s.get_normalized_rank_error(true))).il("errs", errs).i("pmferr", ppm(worst)).emit();
 }
+// the REQ observations of one query batch: true rank, estimate and bounds in ppm; for the exactness claim (a bound pair of zero width
+// at 3 standard deviations says "this rank is exact") the estimate and the 3-sd bounds as D tokens (compared for equality only) and the
+// estimated / true weights rank * n as integers
+struct ReqObs {
+  std::vector<long long> tr, es, lb[3], ub[3], estW, trueW; std::vector<double> estD, lb3D, ub3D;
+  void add(const req_sketch<float>& s, long q, long n) {
+    double truth = (double)(q + 1) / (double)n, est = s.get_rank((float)q, true);
+    tr.push_back(ppm(truth)); es.push_back(ppm(est));
+    estW.push_back(llround(est * (double)n)); trueW.push_back(q + 1);
+    for (int sd = 1; sd <= 3; sd++) {
+      double l = s.get_rank_lower_bound(est, (uint8_t)sd), u = s.get_rank_upper_bound(est, (uint8_t)sd);
+      lb[sd - 1].push_back(ppm(l)); ub[sd - 1].push_back(ppm(u));
+      if (sd == 3) { lb3D.push_back(l); ub3D.push_back(u); }
+    }
+    estD.push_back(est);
+  }
+  void emit(const char* group, int k, bool hra, long n, long sn, int band) {
+    Ev e("Trial"); e.str("fam", "req").str("kind", "bounds").str("group", group).i("k", k).b("hra", hra).i("n", n).i("sn", sn).i("band", band)
+      .il("truth", tr).il("est", es).il("lb1", lb[0]).il("ub1", ub[0]).il("lb2", lb[1]).il("ub2", ub[1]).il("lb3", lb[2]).il("ub3", ub[2])
+      .il("estW", estW).il("trueW", trueW).dl("estD", estD).dl("lb3D", lb3D).dl("ub3D", ub3D);
+    e.emit();
+  }
+};
 static void req_trial(const int* ks, bool hra, long n, int shape, vt::Rng& g, const char* group = nullptr) {   // shape 0: one sketch, 1: 8-way merge, 2: depth-2 tree
   typedef req_sketch<float> R;
   std::vector<float> v = permutation(n, g);
   const int k = ks[0];
   R s = shape == 2 ? build_tree<R>(v, ks, [=](int kk) { return R((uint16_t)kk, hra); })
                    : build<R>(v, shape == 1, [=]() { return R((uint16_t)k, hra); });
-  std::vector<long long> tr, es, lb[3], ub[3];
+  ReqObs o;
   for (int j = 0; j < 100; j++) {
     // query points crowd the accurate end: true ranks 1 - 2^-(j/6) (HRA) or 2^-(j/6) (LRA) and evenly spaced ones
     double r = j < 60 ? std::pow(2.0, -(double)j / 6.0) : ((double)(j - 60) + 0.5) / 40.0;
     if (hra && j < 60) r = 1.0 - r;
-    long q = std::min(n - 1, std::max(0L, (long)(r * (double)n)));
-    double truth = (double)(q + 1) / (double)n, est = s.get_rank((float)q, true);
-    tr.push_back(ppm(truth)); es.push_back(ppm(est));
-    for (int sd = 1; sd <= 3; sd++) { lb[sd - 1].push_back(ppm(s.get_rank_lower_bound(est, (uint8_t)sd))); ub[sd - 1].push_back(ppm(s.get_rank_upper_bound(est, (uint8_t)sd))); }
+    o.add(s, std::min(n - 1, std::max(0L, (long)(r * (double)n))), n);
   }
-  Ev("Trial").str("fam", "req").str("kind", "bounds").str("group", group ? group : (shape == 2 ? "tree" : "flat")).i("k", k).b("hra", hra).i("n", n).i("sn", (long long)s.get_n())
-    .il("truth", tr).il("est", es).il("lb1", lb[0]).il("ub1", ub[0]).il("lb2", lb[1]).il("ub2", ub[1]).il("lb3", lb[2]).il("ub3", ub[2]).emit();
+  o.emit(group ? group : (shape == 2 ? "tree" : "flat"), k, hra, n, (long)s.get_n(), -1);
+}
+// ORDERED streams whose accurate-end items arrive first (ascending for LRA, descending for HRA) - a shuffled stream never exercises the
+// compaction of items near the accurate end.  One sketch or two merged halves.  Dense queries near the accurate end: bands of width k
+// (band b = items (b k .. (b + 1) k] from the accurate end, b = 0..11, 10 queries each), one event and one group per (k, band).
+static void req_ordered_trial(int k, bool hra, bool halves, long n) {
+  typedef req_sketch<float> R;
+  R s((uint16_t)k, hra), s2((uint16_t)k, hra);
+  for (long i = 0; i < n; i++) { float x = (float)(hra ? n - 1 - i : i); if (halves && i >= n / 2) s2.update(x); else s.update(x); }
+  if (halves) s.merge(s2);
+  for (int b = 0; b < 12; b++) {
+    ReqObs o;
+    for (int j = 0; j < 10; j++) { long d = (long)b * k + (long)j * k / 10; o.add(s, hra ? n - 1 - d : d, n); }
+    char grp[40]; snprintf(grp, sizeof grp, "req-ordered-k%02d-b%02d", k, b);
+    o.emit(grp, k, hra, n, (long)s.get_n(), b);
+  }
 }
 
 // unbiasedness of the classic down-sampling merge (its offset comes from random_utils::rand, not from the coin): both sketches
@@ -150,6 +184,10 @@ int main(int argc, char** argv) {
     static const int MIX[3][3] = {{24, 24, 4}, {24, 4, 24}, {50, 24, 4}};
     const long mt = trials >= 96 ? 24 : 12;
     for (long t = 0; t < mt; t++) req_trial(MIX[t % 3], (t / 3) % 2 == 0, n, 2, g, "req-mixed-k");
+  }
+  if (fam == 2) {
+    const long ot = trials >= 96 ? 12 : 6;
+    for (int k : {12, 16, 50}) for (long t = 0; t < ot; t++) for (int c = 0; c < 4; c++) req_ordered_trial(k, c % 2 == 0, c / 2 == 1, 40000);
   }
   Ev("Verdict").i("trials", trials).emit();
   vt::close_out();
